@@ -62,7 +62,7 @@ Custom == {"team"}
 WeightPerms == <<<<0, 1, 10>>, <<0, 10, 1>>, <<1, 0, 10>>, <<1, 10, 0>>, <<10, 0, 1>>, <<10, 1, 0>>,
                  <<0, 10, 10>>, <<10, 0, 10>>, <<10, 10, 0>>, <<1, 10, 10>>, <<10, 1, 10>>, <<10, 10, 1>>>>
 
-Off(z, c, price, av) == [zone |-> z, ct |-> c, price |-> price, available |-> av, rid |-> "", rcap |-> 0, cpuOv |-> 0, memOv |-> 0]
+Off(z, c, price, av) == [zone |-> z, ct |-> c, price |-> price, available |-> av, rid |-> "", rcap |-> 0, cpuOv |-> 0, memOv |-> 0, podsOv |-> 0, ohCpu |-> 0, ohMem |-> 0]
 Ty(n, cpu, mem, offs) == [name |-> n, cpu |-> cpu, mem |-> mem, pods |-> 110, labels |-> <<>>, ovCpu |-> 100, ovMem |-> 0, offerings |-> offs]
 \* T1 small, T2 large, T3 medium; the price order depends on the zone, on the capacity type and on availability:
 \*   any zone:  T3 (a/spot 90) < T1 (100) < T2 (300)      zone b:  T1 (120) < T3 (250) < T2 (300)
